@@ -13,6 +13,13 @@ continuation, in a non-hard context for committing continuations (the only ones 
 non-hard contexts have: the bodies of atomic groups and look-arounds). `Delegate` instructions are
 executed by `delegateOracle` (assumption A-RA) and related to the reference semantics from the
 current state by `delegate_step_spec`.
+
+Look-behinds over an alternation body (`(?<=a|bb)`, `(?<!a|b)`) are covered in all four layouts of the
+compiler: companions `sim3_lookBehindAlts` (atomic group around an alternation of look-behinds) and
+`sim3_lookBehindNegAlts` (sequence of negative look-behinds) for alternatives of different sizes; for
+alternatives of one size `visitAltBody` is `visit (Alt es)` in a non-hard context
+(`visitAltBody_eq_visit`) and the ordinary layout lemmas `sim3_posBehind_wrap` / `sim3_negBehind_wrap`
+apply with `e = .alt es`. The list-level equations are in Lemmas/Sim2BehindAlt.lean.
 -/
 namespace Fancy
 
@@ -1166,5 +1173,18 @@ theorem sim3_lookBehindNegAlts (c : Ctx) (n nS : Nat) (br : Nat → Bool) (hlen 
 termination_by es => sizeOf es
 decreasing_by all_goals (simp_wf; try omega)
 end
+
+/-- the hypotheses of the look-behind companions `sim3_lookBehindAlts` / `sim3_lookBehindNegAlts` are
+    satisfiable: the alternatives of `(?<=a|bb)` / `(?<!a|bb)` -/
+example :
+    let es : List Expr := [.literal ['a'] false, .concat [.literal ['b'] false, .literal ['b'] false]]
+    s3okAlts (fun _ => false) es false = true ∧ condFreeAll es = true ∧ H3L 2 es 0 ∧ es ≠ [] ∧
+      (∃ x, lookBehindAlts (fun _ => false) es 1 2 0 = .ok x) ∧
+      (∃ x, lookBehindNegAlts (fun _ => false) es 0 2 0 = .ok x) := by
+  refine ⟨by simp [s3okAlts, s3ok, isHard, isHardAny], by simp [condFreeAll, condFree],
+    ⟨by simp [wellShapedAll, wellShaped], by simp [slotsBelowAll, slotsBelow],
+      by simp [numberedList, renumberList, renumber], by simp [groupCountList, groupCount]⟩, by simp, ?_, ?_⟩
+  · simp [lookBehindAlts, visit, isHard, isHardAny, constSize, constSizeAll]
+  · simp [lookBehindNegAlts, visit, isHard, isHardAny, constSize, constSizeAll]
 
 end Fancy
